@@ -193,7 +193,7 @@ func c02Core(c *Check, P string, r *RouterRoles) {
 
 	// O5 HELPER-RESULT
 	for _, pc := range pubErrCalls {
-		H := pc.Common().StaticCallee()
+		H := CalleeFn(pc.Common())
 		if H == nil || IsCallTo(pc, nPublish) {
 			continue // Publish invoked directly in D: its result is the tested value
 		}
